@@ -39,6 +39,18 @@ Theorem c19_parse_jwt : forall parts : list str, guarded_index guard_parse_jwt p
 Proof. exact parse_jwt_safe. Qed.
 Print Assumptions c19_parse_jwt.
 
+(* ... the provider decoders repaired after the panic-site inventory was widened (fixes F16, F19, F18): the guard is
+   regenerated from the source on every run, so a revert re-opens the obligation *)
+Theorem c19_google_id_token : forall parts : list str, guarded_index guard_google_id_token parts 1 <> None.
+Proof. exact google_id_token_safe. Qed.
+Print Assumptions c19_google_id_token.
+Theorem c19_logingov_keys : forall keys : list str, guarded_index guard_logingov_keys keys 0 <> None.
+Proof. exact logingov_keys_safe. Qed.
+Print Assumptions c19_logingov_keys.
+Theorem c19_azure_other_mails : forall mails : list str, guarded_index_within guard_azure_other_mails mails 0 <> None.
+Proof. exact azure_other_mails_safe. Qed.
+Print Assumptions c19_azure_other_mails.
+
 (* ... the state substring and the cipher-text splits *)
 Theorem c19_state_substring : forall state, state_substring guard_state_substring state <> None.
 Proof. exact state_substring_safe. Qed.
